@@ -1,9 +1,32 @@
-from vf.checks import _e1
+"""C03: keys, items and key lookup are aligned with iteration order (E1), plus items() over the unordered stages
+(per-epoch reshuffle, buffer-local shuffle, frozen copies used by catch) for ALL rng answers and all
+interleavings of two iterators (shared machinery with C12)."""
+import collections
+
+from vf import common
+from vf.checks import _e1, c12
 
 
 def run(tier):
-    return _e1.run('C03', {'keys'}, tier)
+    res = _e1.run('C03', {'keys'}, tier)
+    total = collections.Counter()
+    js = c12.alignment_jobs(tier)
+    for st, viols in common.pmap(c12._task, js):
+        total.update(st)
+        res.violations.extend(common.Violation.from_json(v) for v in viols)
+    res.coverage['states'] += total['states']
+    res.coverage['transitions'] += total['transitions']
+    res.coverage['traces_validated_against_impl'] += total['states']
+    res.coverage['unordered_stage_scenarios'] = len(js)
+    return res
 
 
 def replay(data):
+    if data['replay'].get('engine') == 'choicemc':
+        r = data['replay']
+        res = common.Result()
+        st, viols = c12._task((r['scenario'], tuple(r['params']), 'C03'))
+        res.violations = [common.Violation.from_json(v) for v in viols]
+        res.coverage.update(states=st['states'], transitions=st['transitions'])
+        return res
     return _e1.replay('C03', {'keys'}, data)
